@@ -37,9 +37,9 @@ def run(ck):
             for e in ["EIO", "ENOSPC", "EINVAL"]: extra.append(["%s#%d=%s" % (call, nth, e)])
             for k in [1, 7, 100, 511, 4095]: extra.append(["%s#%d=short%d" % (call, nth, k)])
     extra.append(["write#0=short0"]); extra.append(["write#1=short0"])
-    for nth in [0, 1]:
-        for e in ["EIO", "EINTR"]: extra.append(["close#%d=%s" % (nth, e)])
-    extra.append(["close#0=EIO", "close#1=EIO"])
+    for which in ["close-dst", "close-src"]:
+        for e in ["EIO", "EINTR", "ENOSPC"]: extra.append(["%s#0=%s" % (which, e)])
+    extra.append(["close-dst#0=EIO", "close-src#0=EIO"])
     extra.append(["alloc#0=fail"]); extra.append(["alloc#0=fail", "read#1=short3"]); extra.append(["alloc#0=fail", "write#2=ENOSPC"])
     lines = []
     def add(kind, size, dst, ow, fs):
